@@ -425,6 +425,13 @@ def run(prog, check):
     icf = _flatten(prog, solver_function(prog, 'initial_conditions'))
     check.saw(icf)
     k0_protection(check, icf, cfgmod.build(icf), rule='C03.R5')
+    # the optional steady-state start treats the variables set aside like the solved ones
+    from ._common import steady_state_covers_all_series, steady_state_loop
+    ssf_, loop_, subst_ = steady_state_loop(prog)
+    check.saw(ssf_)
+    ok_c, why_c = steady_state_covers_all_series(loop_, subst_)
+    check.ob('C03.R5', '%s::steady-start-covers-set-aside-variables' % ssf_.key, ok_c, '%s:%d' % (ssf_.module.rel, loop_.lineno), why_c,
+             'ParameterSolveInitialSteadyState with reduction on and off: a decorative variable must start from the same k=0 value')
     check.floor('C03.R5', 2)
     check.floor('C03.R1', 5)
     check.floor('C03.R2', 8)
